@@ -145,6 +145,16 @@ type Symx struct {
 
 func NewSymx() *Symx { return &Symx{MaxDepth: 40} }
 
+// Bind makes the tracer render value v as the opaque name (keeps terms of loop-heavy functions readable and lets a
+// rule ask "is this the same value as that one").
+func (s *Symx) Bind(v ssa.Value, name string) *Symx {
+	if s.subst == nil {
+		s.subst = map[ssa.Value]*Term{}
+	}
+	s.subst[v] = &Term{Op: "param", Name: name, Val: v}
+	return s
+}
+
 func (s *Symx) Of(v ssa.Value) *Term {
 	return s.of(v, map[ssa.Value]bool{}, 0)
 }
